@@ -322,6 +322,72 @@ class Alias(_Bodies):
         return body
 
 
+class FirstMatch(_Bodies):
+    """`x = next((E for v in it if c), D)` (D a constant or a name) is the first-match loop
+    `x = D; for v in it: if c: x = E; break` - when v is used nowhere else in the function (the generator does not leak it)"""
+
+    def __init__(self):
+        self.fn = []
+
+    def visit_FunctionDef(self, node):
+        self.fn.append(node)
+        try:
+            return self._do(node)
+        finally:
+            self.fn.pop()
+
+    visit_AsyncFunctionDef = visit_FunctionDef
+
+    def process(self, body):
+        out = []
+        for st in body:
+            v = st.value if isinstance(st, ast.Assign) and len(st.targets) == 1 and isinstance(st.targets[0], ast.Name) else None
+            if self.fn and isinstance(v, ast.Call) and isinstance(v.func, ast.Name) and v.func.id == "next" and len(v.args) == 2 and not v.keywords \
+                    and isinstance(v.args[0], ast.GeneratorExp) and len(v.args[0].generators) == 1 and not v.args[0].generators[0].is_async \
+                    and isinstance(v.args[1], (ast.Constant, ast.Name)):
+                ge, gen, tname = v.args[0], v.args[0].generators[0], st.targets[0].id
+                bound = {y.id for y in ast.walk(gen.target) if isinstance(y, ast.Name)}
+                inside = {id(y) for y in ast.walk(ge)}
+                leaks = any(isinstance(y, ast.Name) and y.id in bound and id(y) not in inside for y in ast.walk(self.fn[-1]))
+                mentions = any(isinstance(y, ast.Name) and y.id == tname for y in ast.walk(ge))
+                if not leaks and not mentions and tname not in bound:
+                    hit = [_loc(ast.Assign(targets=[ast.Name(id=tname, ctx=ast.Store())], value=ge.elt), st), _loc(ast.Break(), st)]
+                    inner = hit
+                    if gen.ifs:
+                        test = gen.ifs[0] if len(gen.ifs) == 1 else _loc(ast.BoolOp(op=ast.And(), values=list(gen.ifs)), gen.ifs[0])
+                        inner = [_loc(ast.If(test=test, body=hit, orelse=[]), st)]
+                    out.append(_loc(ast.Assign(targets=[ast.Name(id=tname, ctx=ast.Store())], value=v.args[1]), st))
+                    out.append(_loc(ast.For(target=gen.target, iter=gen.iter, body=inner, orelse=[], type_comment=None), st))
+                    for y in ast.walk(gen.target):
+                        if isinstance(y, ast.Name):
+                            y.ctx = ast.Store()
+                    continue
+            # d.update({K: V for t in it [if c]})   ->   for t in it: [if c:] d[K] = V      (d not mentioned in the comprehension)
+            c = st.value if isinstance(st, ast.Expr) else None
+            if self.fn and isinstance(c, ast.Call) and isinstance(c.func, ast.Attribute) and c.func.attr == "update" and len(c.args) == 1 \
+                    and not c.keywords and isinstance(c.args[0], ast.DictComp) and len(c.args[0].generators) == 1 \
+                    and not c.args[0].generators[0].is_async and isinstance(c.func.value, (ast.Name, ast.Attribute)):
+                dc, gen = c.args[0], c.args[0].generators[0]
+                bound = {y.id for y in ast.walk(gen.target) if isinstance(y, ast.Name)}
+                inside = {id(y) for y in ast.walk(dc)}
+                leaks = any(isinstance(y, ast.Name) and y.id in bound and id(y) not in inside for y in ast.walk(self.fn[-1]))
+                recv = ast.dump(c.func.value)
+                mentions = any(ast.dump(y) == recv for y in ast.walk(dc) if isinstance(y, (ast.Name, ast.Attribute)))
+                if not leaks and not mentions:
+                    store = _loc(ast.Assign(targets=[ast.Subscript(value=c.func.value, slice=dc.key, ctx=ast.Store())], value=dc.value), st)
+                    inner = [store]
+                    if gen.ifs:
+                        test = gen.ifs[0] if len(gen.ifs) == 1 else _loc(ast.BoolOp(op=ast.And(), values=list(gen.ifs)), gen.ifs[0])
+                        inner = [_loc(ast.If(test=test, body=[store], orelse=[]), st)]
+                    for y in ast.walk(gen.target):
+                        if isinstance(y, ast.Name):
+                            y.ctx = ast.Store()
+                    out.append(_loc(ast.For(target=gen.target, iter=gen.iter, body=inner, orelse=[], type_comment=None), st))
+                    continue
+            out.append(st)
+        return out
+
+
 class Untuple(_Bodies):
     """`a, b = x, y` with independent sides (no right-hand element mentions a target) is two assignments"""
 
@@ -340,7 +406,7 @@ class Untuple(_Bodies):
         return out
 
 
-PASSES = (Untuple, Expand, Nest, Orient, Merge, Compare, Comprehend, Alias)
+PASSES = (Untuple, FirstMatch, Expand, Nest, Orient, Merge, Compare, Comprehend, Alias)
 
 
 def normalise(tree, passes=PASSES):
